@@ -137,7 +137,10 @@ TEMPLATES = ['X + Y;', 'X - Y;', 'X * Y;', 'X / Y;', 'X % Y;', 'X < Y;', 'X > Y;
              'a = X - - Y;', 'a = X + + Y;', 'a = X - -- Y;', 'a = X + ++ Y;', 'X ++ + Y;', 'X -- - Y;',
              'return X', 'X\nY', 'a = X\n++Y;', 'if (X) { } else { }', 'while (X);', 'for (;;);', 'if (X); else Y;',
              'if (X);', 'for (X in Y);', 'with (X);', 'L: ;', 'do ; while (X)', '{ ; }', 'function f(){ ; }',
-             'if (a) { X } Y', 'switch (X) { default: ; }', 'while (a) X: ;']
+             'if (a) { X } Y', 'switch (X) { default: ; }', 'while (a) X: ;',
+             # stray empty statements and text-less blocks next to one another at the end of a statement list
+             'X;; {}', 'X; ; { ; }', 'function f(){ X;; {} }', 'if (a) { X;; {} }', 'X; {} ;', 'X;;; {}', 'X; {} {}',
+             'X; {;} Y', 'switch (a) { case 1: X;; {} }', 'while (a) { X; ; {{}} }', '{} ; X', ';; X', 'X;;']
 
 
 def product_cases():
